@@ -166,9 +166,16 @@ def create_action_with_given_subs(
     old_action: Action,
     simplifier,
     subs: Dict[Expression, Expression],
+    used_names: Optional[Set[str]] = None,
 ) -> Optional[Action]:
     """
     This method is used to instantiate the actions parameters to a constant.
+
+    ``used_names``, when given, is the set of names already handed out to other
+    instantiations that are not (yet) in ``problem``: the name of the new action is
+    chosen outside this set and added to it. Joining the action name and the parameters
+    with ``_`` is not injective (``move(a_b, c)`` and ``move(a, b_c)``), so a caller that
+    instantiates several actions of the same ``problem`` must pass the same set every time.
 
     ``old_action`` is cloned first (preserving its exact subclass and any subclass-only
     data, e.g. a :class:`~unified_planning.model.contingent.SensingAction`'s
@@ -191,8 +198,12 @@ def create_action_with_given_subs(
         new_action.name = (
             old_action.name
             if not subs
-            else get_fresh_name(problem, old_action.name, naming_list)
+            else get_fresh_name(
+                problem, old_action.name, naming_list, used_names=used_names
+            )
         )
+        if used_names is not None:
+            used_names.add(new_action.name)
         new_action._parameters = OrderedDict()
         if isinstance(new_action, SensingAction):
             # observed_fluents is SensingAction-only, so create_effect_with_given_subs
@@ -247,8 +258,12 @@ def create_action_with_given_subs(
         new_durative_action.name = (
             old_action.name
             if not subs
-            else get_fresh_name(problem, old_action.name, naming_list)
+            else get_fresh_name(
+                problem, old_action.name, naming_list, used_names=used_names
+            )
         )
+        if used_names is not None:
+            used_names.add(new_durative_action.name)
         new_durative_action._parameters = OrderedDict()
         old_duration = new_durative_action.duration
         new_duration = DurationInterval(
@@ -336,8 +351,12 @@ def get_fresh_name(
     original_name: str,
     parameters_names: Sequence[str] = tuple(),
     trailing_info: Optional[str] = None,
+    used_names: Optional[Set[str]] = None,
 ) -> str:
-    """This method returns a fresh name for the problem, given a name and an iterable of names in input."""
+    """
+    This method returns a fresh name for the problem, given a name and an iterable of names in input.
+    The returned name is neither a name of the problem nor one of the optional ``used_names``.
+    """
     name_list = [original_name]
     name_list.extend(parameters_names)
     if trailing_info:
@@ -345,7 +364,9 @@ def get_fresh_name(
     new_name = "_".join(name_list)
     base_name = new_name
     count = 0
-    while problem.has_name(new_name):
+    while problem.has_name(new_name) or (
+        used_names is not None and new_name in used_names
+    ):
         new_name = f"{base_name}_{str(count)}"
         count += 1
     return new_name
